@@ -11,6 +11,7 @@ import (
 	"fmt"
 	"math/rand/v2"
 	"os"
+	"regexp"
 	"runtime"
 	"sort"
 	"strings"
@@ -106,6 +107,20 @@ func runConc(phase string, i int, rng *rand.Rand) (res worker.Result) {
 	if !d.Absent {
 		// make pre-existing entries of pool addresses readable, and the legacy fallback unique
 		a, _ := d.Doc["auths"].(map[string]any)
+		if p := pool[0]; toHost(p) == p && rng.IntN(2) == 0 {
+			// a bare host known only under its legacy URL key: Get takes the fallback path
+			// while Put/Delete of the same and of other addresses are in flight
+			if a == nil {
+				a = map[string]any{}
+				d.Doc["auths"] = a
+			}
+			c := genCred(rng)
+			c.U = "legacy" + c.U
+			a["https://"+p+"/v1/"] = entryFor(c)
+			if rng.IntN(2) == 0 {
+				delete(a, p)
+			}
+		}
 		for _, p := range pool {
 			if e, ok := a[p]; ok {
 				if c, ok := credOf(e); !ok || (c == cred{}) {
@@ -202,6 +217,9 @@ func runConc(phase string, i int, rng *rand.Rand) (res worker.Result) {
 				}
 			case x < 16:
 				p.kind = "get"
+				if rng.IntN(5) == 0 {
+					p.addr = ghostAddr // never stored: every such Get walks the legacy keys
+				}
 			default:
 				p.kind = "del"
 			}
@@ -211,14 +229,20 @@ func runConc(phase string, i int, rng *rand.Rand) (res worker.Result) {
 		sig.WriteString("/")
 	}
 
+	pool = append(pool, ghostAddr)
+	inPool[ghostAddr] = true
+
 	var clock atomic.Int64
+	var recMu sync.Mutex // recs, errs, pending
 	recs := make([][]concOp, G)
 	errs := make([]string, G)
+	pending := make([]*concOp, G)
 	start := make(chan struct{})
 	var wg sync.WaitGroup
 	for g := 0; g < G; g++ {
 		wg.Add(1)
-		go func(g int) {
+		go concClient(func() {
+			g := g
 			defer wg.Done()
 			<-start
 			for _, p := range plans[g] {
@@ -228,6 +252,9 @@ func runConc(phase string, i int, rng *rand.Rand) (res worker.Result) {
 				op := concOp{G: g, Kind: p.kind, Addr: p.addr}
 				var err error
 				op.Call = clock.Add(1)
+				recMu.Lock()
+				pending[g] = &concOp{G: g, Kind: p.kind, Addr: p.addr, Call: op.Call}
+				recMu.Unlock()
 				switch p.kind {
 				case "put":
 					op.Val = encCred(p.c)
@@ -242,12 +269,15 @@ func runConc(phase string, i int, rng *rand.Rand) (res worker.Result) {
 					}
 				}
 				op.Ret = clock.Add(1)
+				recMu.Lock()
 				if err != nil && errs[g] == "" {
 					errs[g] = fmt.Sprintf("%s(%q): %v", p.kind, p.addr, err)
 				}
 				recs[g] = append(recs[g], op)
+				pending[g] = nil
+				recMu.Unlock()
 			}
-		}(g)
+		})
 	}
 	// the reader: the file must be a complete document whenever it is read
 	var stop atomic.Bool
@@ -293,15 +323,54 @@ func runConc(phase string, i int, rng *rand.Rand) (res worker.Result) {
 		}
 	}()
 	close(start)
-	wg.Wait()
+	// deadlock monitor. Sampling uses time, the verdict does not: it is given when no call
+	// started or returned between two samples AND a stop-the-world goroutine dump shows every
+	// remaining client parked on the config's lock — nobody is left who could ever unlock it.
+	finished := make(chan struct{})
+	go func() { wg.Wait(); close(finished) }()
+	deadlockDump := ""
+	lastClock := int64(-1)
+monitor:
+	for {
+		select {
+		case <-finished:
+			break monitor
+		case <-time.After(100 * time.Millisecond):
+		}
+		if cur := clock.Load(); cur != lastClock {
+			lastClock = cur
+			continue
+		}
+		dump := allStacks()
+		if clientsAllParkedOnConfigLock(dump) {
+			deadlockDump = dump
+			break monitor
+		}
+	}
 	stop.Store(true)
 	<-readerDone
 
 	var hist []concOp
+	recMu.Lock()
 	for g := range recs {
 		hist = append(hist, recs[g]...)
 	}
+	var inFlight []concOp
+	for _, p := range pending {
+		if p != nil {
+			inFlight = append(inFlight, *p)
+		}
+	}
+	errsCopy := append([]string{}, errs...)
+	recMu.Unlock()
+	errs = errsCopy
 	sort.Slice(hist, func(a, b int) bool { return hist[a].Call < hist[b].Call })
+	if deadlockDump != "" {
+		res.Count("conc_deadlocks", 1)
+		res.Violate("conc:deadlock", fmt.Sprintf("%d calls never return: every client goroutine is parked in sync.RWMutex/Mutex inside credentials/internal/config and no call started or returned between two samples — nobody can release the lock", len(inFlight)),
+			map[string]any{"store": kind, "document": string(clip(d.Text, 2000)), "pool": pool, "fallback": fallback, "goroutines": G, "calls_in_flight": inFlight, "completed_history": hist, "goroutine_dump": string(clip([]byte(deadlockDump), 30000))})
+		return // the parked goroutines stay behind; they own nothing but their store
+	}
 	wit := func() map[string]any {
 		return map[string]any{"store": kind, "document": string(clip(d.Text, 4000)), "doc_state": d.Shape, "config_path_is_symlink": d.Link, "pool": pool, "fallback": fallback, "goroutines": G, "history": hist}
 	}
@@ -460,4 +529,42 @@ func runConc(phase string, i int, rng *rand.Rand) (res worker.Result) {
 		res.Sample = shorten(w)
 	}
 	return
+}
+
+// ghostAddr is never stored; Gets of it always take the legacy-key path.
+const ghostAddr = "ghost.example:5000"
+
+// concClient is the frame by which the workload's goroutines are recognised in a dump.
+//
+//go:noinline
+func concClient(body func()) { body() }
+
+func allStacks() string {
+	buf := make([]byte, 1<<20)
+	for {
+		n := runtime.Stack(buf, true)
+		if n < len(buf) {
+			return string(buf[:n])
+		}
+		buf = make([]byte, 2*len(buf))
+	}
+}
+
+var parkedOnLock = regexp.MustCompile(`^goroutine \d+ \[(sync\.RWMutex\.RLock|sync\.RWMutex\.Lock|sync\.Mutex\.Lock|semacquire)(, \d+ minutes)?(, locked to thread)?\]:`)
+
+// clientsAllParkedOnConfigLock reads a goroutine dump taken with the world stopped:
+// true when there is at least one client goroutine and every one of them waits for
+// the config's RWMutex (reader, writer, or the writers' inner mutex).
+func clientsAllParkedOnConfigLock(dump string) bool {
+	clients, parked := 0, 0
+	for _, blk := range strings.Split(dump, "\n\n") {
+		if !strings.Contains(blk, "main.concClient(") {
+			continue
+		}
+		clients++
+		if parkedOnLock.MatchString(blk) && strings.Contains(blk, "credentials/internal/config.(*Config).") && strings.Contains(blk, "sync.(*RWMutex).") {
+			parked++
+		}
+	}
+	return clients > 0 && parked == clients
 }
